@@ -1,17 +1,50 @@
 package checks
 
 import (
+	"bytes"
+	"encoding/json"
 	"testing"
 
 	"verifsim/chainsim"
 	"verifsim/kernel"
 )
 
+// C01 has two kinds of plan: import histories (chainsim.Plan) and miner
+// histories (chainsim.MinePlan: the node's own block-building path).
 func TestC01(t *testing.T) {
+	imp := chainsim.ExecChain("C01")
 	kernel.Run(t, &kernel.Spec{
 		Prop: "C01", Engine: "chainsim",
-		Generate: chainsim.GenC01, Decode: chainsim.DecodePlan, Execute: chainsim.ExecChain("C01"),
-		Shrink: chainsim.ShrinkPlan, Hash: chainsim.HashPlan,
+		Generate: func(rng *kernel.RNG, env *kernel.Env, k int) any {
+			if k%4 == 3 {
+				return chainsim.GenMinePlan(rng, env, k)
+			}
+			return chainsim.GenC01(rng, env, k)
+		},
+		Decode: func(raw json.RawMessage) (any, error) {
+			if bytes.Contains(raw, []byte(`"steps"`)) && !bytes.Contains(raw, []byte(`"ops"`)) {
+				return chainsim.DecodeMinePlan(raw)
+			}
+			return chainsim.DecodePlan(raw)
+		},
+		Execute: func(t *testing.T, p any, col *kernel.Collector) []kernel.Violation {
+			if mp, ok := p.(*chainsim.MinePlan); ok {
+				return chainsim.ExecMine(t, mp, col)
+			}
+			return imp(t, p, col)
+		},
+		Shrink: func(p any) []any {
+			if mp, ok := p.(*chainsim.MinePlan); ok {
+				return chainsim.ShrinkMinePlan(mp)
+			}
+			return chainsim.ShrinkPlan(p)
+		},
+		Hash: func(p any) uint64 {
+			if mp, ok := p.(*chainsim.MinePlan); ok {
+				return chainsim.HashMinePlan(mp)
+			}
+			return chainsim.HashPlan(p)
+		},
 		StallS: 60, Meta: chainMeta,
 	})
 }
